@@ -125,6 +125,22 @@ let parse_dump (s : string) : idl =
   if er <> i_errors d then raise (Irregular "Errors is not the error sub-list of Members");
   d
 
+(* ---------- wire ---------- *)
+let show_rres = function
+  | RData d -> "D" ^ hex_of_bytes d
+  | REof d -> "E" ^ hex_of_bytes d
+
+let wire_run (cap : int) (chunks : string) (ops : string list) : string =
+  let chs = if chunks = "-" then [] else List.map bytes_of_hex (String.split_on_char ',' chunks) in
+  let ops = List.map (fun o ->
+      match o.[0] with
+      | 'B' -> OpReadBytes (List.hd (bytes_of_hex (String.sub o 1 (String.length o - 1))))
+      | 'R' -> OpRead (nat_of_int (int_of_string (String.sub o 1 (String.length o - 1))))
+      | _ -> failwith "bad op") ops in
+  match run_ops (nat_of_int cap) ops { rbuf = []; chunks = chs } with
+  | None -> "FUEL"
+  | Some (rs, _) -> String.concat " " (List.map show_rres rs)
+
 let split_ws (l : string) : string list =
   List.filter (fun x -> x <> "") (String.split_on_char ' ' l)
 
@@ -140,6 +156,7 @@ let handle (cmd : string) (line : string) : string =
        let (st, wf) = idl_oracle input d in
        Printf.sprintf "strip=%d wf=%d" (if st then 1 else 0) (if wf then 1 else 0)
      with Irregular m -> "IRREGULAR " ^ m)
+  | "wire-run", cap :: chunks :: ops -> wire_run (int_of_string cap) chunks ops
   | _ -> failwith ("bad case for " ^ cmd ^ ": " ^ line)
 
 let () =
